@@ -142,6 +142,18 @@ type c13world struct {
 	trig16   map[[2]int]bool // (emission index, connection): a request of that connection was processed during that emission
 	uidOf    map[uint64]int
 	bad      []string // harness-level surprises (an expected effect did not happen)
+	mode     int      // c13mode at creation
+}
+
+// c13mode: how the object is set up before a schedule starts (by an extra client that is not part of
+// the schedule): bit 0 = enableStats(true), bit 1 = enableTrace(true).  With either one
+// stubObject.Receive wraps the caller's Channel per message (statChannel / tracedChannel): the
+// registration table then holds wrapped channels.  The protocol, and therefore the model, is the same.
+var c13mode = 0
+
+func c13modeName(m int) string {
+	return []string{"plain", "statistics enabled (enableStats(true) before the schedule)", "tracing enabled (enableTrace(true) before the schedule)",
+		"statistics and tracing enabled (enableStats(true), enableTrace(true) before the schedule)"}[m&3]
 }
 
 func c13new(nclients int) *c13world {
@@ -166,6 +178,25 @@ func c13new(nclients int) *c13world {
 		}
 		cl := bus.NewClient(ch)
 		w.clients = append(w.clients, &c13client{c: c, cl: cl, proxy: bus.NewProxy(cl, object.FullMetaObject(c13meta()), w.sid, 1)})
+	}
+	w.mode = c13mode
+	if w.mode != 0 {
+		_, s := w.n.Dial()
+		ch := bus.NewChannel(net.NewEndPoint(s), bus.ClientCap("", ""))
+		if err := ch.Authenticate(); err != nil {
+			panic(err)
+		}
+		admin := bus.NewProxy(bus.NewClient(ch), object.FullMetaObject(c13meta()), w.sid, 1)
+		if w.mode&1 != 0 {
+			if _, err := admin.CallID(81, []byte{1}); err != nil {
+				w.surprise("enableStats(true): %v", err)
+			}
+		}
+		if w.mode&2 != 0 {
+			if _, err := admin.CallID(85, []byte{1}); err != nil {
+				w.surprise("enableTrace(true): %v", err)
+			}
+		}
 	}
 	return w
 }
@@ -729,6 +760,9 @@ type c13verdict struct {
 func (w *c13world) oracles() []c13verdict {
 	var v []c13verdict
 	hist := strings.Join(w.labels, "; ")
+	if w.mode != 0 {
+		hist = "object " + c13modeName(w.mode) + "; " + hist
+	}
 	emIndex := map[uint32]int{}
 	for i, e := range w.emits {
 		emIndex[e.p] = i
@@ -1190,11 +1224,12 @@ func runC13(res *hx.Result, rng *hx.Rng, tier string, outdir string) {
 				sets++
 			}
 		}
-		res.Count(strings.Join(w.labels, ";"), nem >= 2 && sets >= 2)
+		res.Count(fmt.Sprintf("mode%d;", w.mode)+strings.Join(w.labels, ";"), nem >= 2 && sets >= 2)
 		res.Dist("kind:" + name)
+		res.Dist("object:" + strings.SplitN(c13modeName(w.mode), " (", 2)[0])
 		res.Dist(fmt.Sprintf("subscribers:%d", len(w.subs)))
 		res.Sample(fmt.Sprintf("%s: %d labels, %d subscribers, %d emissions", name, len(w.labels), len(w.subs), nem))
-		cf.Add("cases", w.caseTerm(cfg), name+": "+strings.Join(w.labels, "; "))
+		cf.Add("cases", w.caseTerm(cfg), name+" [object "+c13modeName(w.mode)+"]: "+strings.Join(w.labels, "; "))
 		w.close()
 	}
 	finish(w17, "probe-sub_unserialised")
@@ -1204,7 +1239,20 @@ func runC13(res *hx.Result, rng *hx.Rng, tier string, outdir string) {
 		w, name := f()
 		finish(w, "script-"+name)
 	}
+	// the same scripts on an object with statistics and/or tracing enabled
+	for i, f := range c13scripts() {
+		for m := 1; m <= 3; m++ {
+			if tier != "thorough" && m != 1+i%3 && i != 5 && i != 2 { // quick: one mode per script, every mode for the re-subscription scripts
+				continue
+			}
+			c13mode = m
+			w, name := f()
+			c13mode = 0
+			finish(w, "script-"+name)
+		}
+	}
 	for i := 0; i < nSeq; i++ {
+		c13mode = (i / 2) % 4
 		if i%2 == 0 {
 			finish(c13sequential(rng, 6+rng.Intn(10), 3, 5, 9), "sequential")
 		} else { // few keys, many operations: shared registrations, re-subscription cycles
@@ -1212,14 +1260,21 @@ func runC13(res *hx.Result, rng *hx.Rng, tier string, outdir string) {
 		}
 	}
 	for i := 0; i < nInter; i++ {
+		c13mode = i % 4
 		finish(c13interleaved(rng, 15+rng.Intn(30)), "interleaved")
 	}
+	c13mode = 0
 	if tier == "thorough" {
 		// every sequence of at most 4 operations over 2 connections x 2 signals (one through the generated proxy)
 		res.Exhaustive = true
 		var rec func(prefix []int)
 		run := func(seq []int) {
+			c13mode = 0
+			for _, o := range seq {
+				c13mode = (c13mode + o) % 4
+			}
 			w := c13new(2)
+			c13mode = 0
 			w.drive()
 			payload := uint32(100)
 			h := 0
